@@ -219,6 +219,12 @@ func fuzzSpace2(w *W, run func(input, desc string)) {
 			}
 		}
 	}
+	// (c2) heads with their trailing clauses in rotating order, alone and followed by other statements
+	for _, st := range clauseLast {
+		run(st, "clauses")
+		run(st+"; SELECT 1 SETTINGS max_threads = 1; SELECT 2", "clauses")
+		run("SELECT 0; "+st+";", "clauses")
+	}
 	// (d) every statement head with every subset of the optional tails (grammar order)
 	for _, th := range tailHeads {
 		for mask := 0; mask < 1<<len(tailParts); mask++ {
